@@ -3,15 +3,9 @@
 import json, os, subprocess
 V = os.path.dirname(os.path.dirname(os.path.abspath(__file__)))
 
-# id -> (level category, level text, level note, technique, design ref)
-CHECKS = {
- "C18": ("exploration",
-         "Runtime monitor over the exported encode/decode/pack functions: quick walks a strided subset (every 4099th value, all seams/boundaries), thorough walks ALL int32 and ALL non-NaN float32 in numeric order checking round trip and adjacent strict monotonicity with extreme row ids (adjacent monotonicity over a total order implies the all-pairs order statement, so the numeric half is exhaustive in the thorough tier); strings and row ids are adversarial samples with all pairs compared.",
-         "Trusted: Go toolchain; byte-wise comparison is what the containers use. Strings are sampled, not enumerated.",
-         "differential execution of the real functions against value-order oracle (exhaustive numeric sweep in thorough tier)", "5/C18"),
-}
-NOT_YET = {
-}
+# tools/checks.json: id -> {category, text, note, technique, ref}; tools/not_claimed.json: id -> reason
+CHECKS = {k: (v["category"], v["text"], v["note"], v["technique"], v["ref"]) for k, v in json.load(open(os.path.join(V, "tools", "checks.json"))).items()}
+NOT_YET = json.load(open(os.path.join(V, "tools", "not_claimed.json")))
 def main():
     props = [json.loads(l) for l in open(os.path.join(V, "properties.jsonl"))]
     hooks = subprocess.run(["git", "-C", "/repo", "log", "--format=%H %s"], capture_output=True, text=True).stdout.splitlines()
